@@ -41,9 +41,12 @@ pub enum SeedMode {
 }
 
 pub fn rand_seed(r: &mut Rng, n: usize) -> SeedMode {
-    match r.below(5) {
-        0 => SeedMode::Omitted,
-        1 => SeedMode::Ones,
+    match r.below(16) {
+        0 | 1 | 2 => SeedMode::Omitted,
+        3 | 4 | 5 => SeedMode::Ones,
+        // an all-zero seed and a seed written out as ones: gradients are zeros / as for `Ones`, and present all the same
+        6 => SeedMode::Ints(vec![0.0; n]),
+        7 => SeedMode::Ints(vec![1.0; n]),
         _ => SeedMode::Ints((0..n).map(|_| r.int(-3, 3)).collect()),
     }
 }
